@@ -1025,7 +1025,7 @@ async def drive_mrp(vabs, vrel, ops):
                 await settle()
                 mops.append([op[0], fhex(ma._volume) if op[0] == "report" else op[1]])
                 out.append(vis(cur))
-                infos.append(None)
+                infos.append({"raw": op[1]} if op[0] == "report" else None)
                 continue
             pending["answers"] = _answers(op)
             pending["sent"] = False
@@ -1056,7 +1056,8 @@ async def drive_mrp(vabs, vrel, ops):
         if fhex(ma._volume) != before:
             mops.append(["report", fhex(ma._volume)])
             out.append([])
-            infos.append(None)
+            mine = [a[1] for a in _answers(op) if a[0] == "mine"]
+            infos.append({"raw": mine[-1]} if mine else None)
     del lst
     return mops, out, infos
 
@@ -1096,6 +1097,13 @@ def judge_stub(value, res):
     return errs
 
 
+def level_of_dbfs(d):
+    """Percent level a device-side dBFS value stands for (AirPlay: -30..0 dB linear, below = muted)."""
+    if d != d or d > 0.0:
+        return None
+    return 0.0 if d < -30.0 else (d + 30.0) * 100.0 / 30.0
+
+
 def judge_raop(ops, events):
     errs = []
     nan_state = False        # the context holds NaN because some side reported NaN as the level
@@ -1112,7 +1120,7 @@ def judge_raop(ops, events):
             v = unhex(op[1])
             nan_state = v != v
             ctx_bad = v == v and v > 0.0
-            expected = None
+            expected = level_of_dbfs(v)        # the device-side level is the level now held
             continue
         if kind == "pump":
             ech = [unhex(e[1]) for e in evs if e[0] == "echo"]
@@ -1195,9 +1203,15 @@ def judge_raop(ops, events):
             if ad:
                 nan_state = ad[-1] != ad[-1]
                 ctx_bad = ad[-1] == ad[-1] and ad[-1] > 0.0
+                expected = level_of_dbfs(ad[-1])
         elif kind == "read":
             if "ProtocolError" in ex and not poisoned:
                 errs.append(("C20:read:in-range-rejected", "audio.volume raised ProtocolError in a valid state"))
+            if rt and poisoned:
+                # out-of-range values from the device raise a protocol error - never a clamped value
+                errs.append(("C20:read:out-of-range-report-accepted",
+                             "the level held came from an out-of-range device report (%s); audio.volume returned %r "
+                             "instead of raising ProtocolError" % ("NaN" if nan_state else "above 0 dBFS", rt[0])))
             if rt and expected is not None and not (rt[0] == expected):
                 err = abs(rt[0] - expected)
                 if err <= TINY:
@@ -1313,14 +1327,38 @@ def judge_cross(mops, events):
 MRP_QUANT = 0.051     # MrpAudio keeps one decimal of the float32 level the device confirms
 
 
+def mrp_level_matches(raw, vol):
+    """Is `vol` (percent, as MrpAudio holds it) the level the device reported as fraction `raw`?
+    Only the one-decimal quantisation may separate them - never a clamp into the range."""
+    truth = raw * 100.0
+    if truth != truth:
+        return vol != vol
+    if truth in (INF, -INF):
+        return vol == truth
+    return vol == vol and abs(vol - truth) <= MRP_QUANT + 1e-6 * abs(truth)
+
+
+def clearly_outside(pct):
+    """A reported percent level that no quantisation can bring into [0,100]."""
+    return pct != pct or pct > 100.0 + MRP_QUANT or pct < -MRP_QUANT
+
+
 def judge_mrp(mops, events, infos=None, vabs=True):
     errs = []
     vol = 0.0
+    truth = 0.0              # percent level the device itself reported (raw fraction * 100), if known
     infos = infos or [None] * len(mops)
     for op, evs, info in zip(mops, events, infos):
         kind = op[0]
         if kind == "report":
             vol = unhex(op[1])
+            truth = vol
+            if info is not None and "raw" in info:
+                raw = unhex(info["raw"])
+                truth = raw * 100.0
+                if not mrp_level_matches(raw, vol):
+                    errs.append(("C20:read:reported-level-altered",
+                                 "the device reported level %r (%r percent); MrpAudio holds %r" % (raw, truth, vol)))
             continue
         if kind == "other":
             continue           # another output device: must not show anywhere (read-backs below would tell)
@@ -1343,6 +1381,10 @@ def judge_mrp(mops, events, infos=None, vabs=True):
         for r in rt:
             if not in_range(r):
                 errs.append(("C20:read:out-of-range-returned", "audio.volume returned %r" % r))
+            elif clearly_outside(truth):
+                # out-of-range values from the device raise a protocol error - never a clamped value
+                errs.append(("C20:read:out-of-range-report-accepted",
+                             "the device reported %r percent; audio.volume returned %r instead of raising ProtocolError" % (truth, r)))
             elif not (r == vol):
                 errs.append(("C20:read:value-altered", "device level %r, audio.volume returned %r" % (vol, r)))
         if kind == "set":
@@ -1355,14 +1397,21 @@ def judge_mrp(mops, events, infos=None, vabs=True):
             elif not ex and not fw:
                 errs.append(("C20:write:out-of-range-accepted", "set_volume(%r) returned normally" % lv))
         elif kind == "read":
-            if "ProtocolError" in ex and in_range(vol):
+            if "ProtocolError" in ex and in_range(vol) and not clearly_outside(truth):
                 errs.append(("C20:read:in-range-rejected", "audio.volume raised ProtocolError for level %r" % vol))
         else:
             if "ProtocolError" in ex:
                 errs.append(("C20:step:in-range-rejected", "volume_%s raised ProtocolError" % kind))
         # set a level / step, read it back: the moment the call returns, audio.volume is the level this
         # device confirmed - not an older one, and not the level of another member of the group
-        if info is not None and vabs and not ex and info["request_sent"]:
+        if info is not None and "answers" in info:
+            # whatever this device confirmed must be what MrpAudio now holds (no clamping into the range)
+            mine_raw = [unhex(x[1]) for x in info["answers"] if x[0] == "mine"]
+            if info["request_sent"] and len(mine_raw) == 1 and not mrp_level_matches(mine_raw[0], unhex(info["settled"])):
+                errs.append(("C20:read:reported-level-altered",
+                             "the device reported level %r (%r percent); MrpAudio holds %r"
+                             % (mine_raw[0], mine_raw[0] * 100.0, unhex(info["settled"]))))
+        if info is not None and "answers" in info and vabs and not ex and info["request_sent"]:
             mine = [unhex(a[1]) for a in info["answers"] if a[0] == "mine"]
             at_ret, settled, pre = unhex(info["at_return"]), unhex(info["settled"]), unhex(info["before"])
             target = fw[0] if len(fw) == 1 and in_range(fw[0]) else None     # level the protocol was asked for
@@ -1708,7 +1757,7 @@ def run_case(case):
         nontriv = any(e[0] in ("fwd", "ret", "key") for evs in ev for e in evs)
         return errs, [term], ("mrp", case["abs"], case["rel"], json.dumps(case["ops"])), nontriv, \
             {"kind": k, "abs": case["abs"], "rel": case["rel"], "ops": case["ops"], "model_ops": mops, "impl_events": ev,
-             "at_return": [None if i is None else [i["before"], i["at_return"], i["settled"]] for i in infos]}
+             "at_return": [None if (i is None or "before" not in i) else [i["before"], i["at_return"], i["settled"]] for i in infos]}
     if k == "cross":
         front = case["front"]
         mops, ev = vloop.run(drive_raop, case["ops"], bool(case.get("streaming", False)), front)
@@ -1865,6 +1914,21 @@ def run(ctx):
                  "streaming": streaming}, "paths")
             add({"kind": "raop", "ops": [["up"], ["stream", init], ["read"]], "streaming": streaming}, "paths")
             add({"kind": "raop", "ops": [["read"], ["down"], ["pump"], ["stream", init], ["read"]], "streaming": streaming}, "paths")
+
+    # out-of-range / non-finite levels reported by the device itself, then read / set / step, on every path
+    bad_fracs = [1.002, 1.0005, 1.2, 2.0, 37.0, INF, -0.002, -0.2, -1.0, -INF, NAN, 3e38]
+    for n, bf in enumerate(bad_fracs):
+        b = fhex(f32(bf))
+        for a, r in ((True, False), (True, True)):
+            add({"kind": "mrp", "abs": a, "rel": r, "ops": [
+                ["report", b], ["read"], ["set", fhex(50.0), [["mine", fhex(f32(0.5))]]], ["read"],
+                ["report", b], ["read"], ["up", [["mine", b]]], ["read"], ["down", [["other", fhex(f32(0.3))], ["mine", b]]], ["read"],
+                ["set", fhex(100.0), [["mine", b]]], ["read"]]}, "hostile")
+        d = [1.0, 0.5, 5e-324, 30.0, INF, NAN, 1e308][n % 7]
+        for streaming in (False, True):
+            add({"kind": "raop", "streaming": streaming, "ops": [
+                ["stream", fhex(d)], ["read"], ["up"], ["read"], ["set", fhex(50.0)], ["read"],
+                ["inject", fhex(d)], ["read"], ["down"], ["stream", None], ["read"]]}, "hostile")
 
     # (e) cross-protocol: a level announced by one protocol (Companion / MRP) through the core state
     #     dispatcher is intercepted by RaopAudio and forwarded at the next stream start
